@@ -2,6 +2,7 @@
 
 Decides the code shape that makes it possible (single FIFO path, lock discipline on the pending-write table, per-iteration
 settle discipline, resume offset); does not decide the byte stream for all short-write patterns."""
+import re
 from .. import cfg, lib, facts
 from ..facts import AnalysisBroken, strip_tmpl
 
@@ -83,7 +84,7 @@ def run(ck):
         sites = prog.call_sites(w)
         ck.require(sites, "no caller of %s" % w)
         for e in sites:
-            ck.ob("C06-R1", "caller-of:%s" % w.replace(T, ""), e.func.base == T + "asyncWriteImpl", e.loc, e.func, "called from %s" % e.func.base)
+            ck.ob("C06-R1", "caller-of:%s" % w.replace(T, ""), prog.owner(e.func).base == T + "asyncWriteImpl", e.loc, e.func, "called from %s" % prog.owner(e.func).base)
     # asyncWrite only enqueues
     aw = prog.find(T + "asyncWrite", 1)
     for f in aw:
@@ -112,9 +113,9 @@ def run(ck):
                 continue
             nm = e.base_callee().rsplit("::", 1)[1]
             if nm == "push_back":
-                ok = f.base == T + "handleWriteQueue"
+                ok = lib.only_reached_from(prog, f, {T + "handleWriteQueue"})
             elif nm == "push_front":
-                ok = f.base == T + "asyncWriteImpl"
+                ok = lib.only_reached_from(prog, f, {T + "asyncWriteImpl"})
             else:
                 ok = False
             ck.ob("C06-R1", "fifo-growth:%s in %s" % (nm, f.base.replace(T, "")), ok, e.loc, f, "%s on a WriteEntry deque" % nm)
@@ -213,18 +214,34 @@ def run(ck):
     twd = [d for d in f.events("decl") if strip_tmpl(d.get("icall") or "") == T + "BufferHolder::offset"]
     ck.require(len(twd) == 1, "progress variable (initialised from buffer.offset()) not found in asyncWriteImpl")
     TW = twd[0]["var"]
-    bwv = {a["lhs"].get("v") for a in f.events("assign") if a.get("op") == "=" and any(w.rsplit("::", 1)[1] + "(" in (a["rhs"].get("t") or "") for w in WRITE_OWNERS)}
+    # writers: the two owners, and local lambdas of the drain routine that (only) wrap them
+    summ = lib.Summaries(prog)
+    is_owner_call = lambda e: e["k"] == "call" and e.get("callee") in WRITE_OWNERS
+    wrappers = {}        # lambda id -> local variable name
+    for lf in prog.lambdas_in(f):
+        if summ.may(lf, is_owner_call, "owner-write"):
+            lid = lf.id.split("#in:")[0]
+            for d in f.events("decl"):
+                if d.get("var") and lid.replace("lambda@", "") in (d.get("type") or ""):
+                    wrappers[lid] = d["var"]
+    wnames = [w.rsplit("::", 1)[1] for w in WRITE_OWNERS] + list(wrappers.values())
+    wcallees = set(WRITE_OWNERS) | set(wrappers)
+    bwv = {a["lhs"].get("v") for a in f.events("assign") if a.get("op") == "=" and any(re.search(r"\b%s\(" % re.escape(w), a["rhs"].get("t") or "") for w in wnames)}
+    bwv |= {d["var"] for d in f.events("decl") if d.get("var") and (d.get("icall") or "").split("#in:")[0] in wcallees}
+    bwv.discard(None)
     ck.require(len(bwv) == 1, "result variable of the writer calls not found in asyncWriteImpl (%s)" % bwv)
     BW = bwv.pop()
-    # resolve dominated by the completion test and carries totalWritten
+    # resolve is reachable only through an edge that establishes totalWritten >= buffer.size() (written either way round, as the
+    # taken arm of `>=`/`==` or the not-taken arm of `<`), and carries totalWritten
     dom = cfg.dominators(f)
     res = [e for e in f.events("call") if consumption(e) == "resolve"]
     ck.require(res, "deferred.resolve not found")
-    tests = [b for b in f.blocks.values() if b.term and b.term.get("k") == "if" and b.term.get("cmp") in (">=", "==") and (b.term.get("lhs") or {}).get("v") == TW
-             and "size" in ((b.term.get("rhs") or {}).get("t") or "")]
+    is_size = lambda r: "size" in (r.get("t") or "")
+    tests = [(b, k) for b in f.blocks.values() if b.term and len(b.succs) == 2 for k in (0, 1)
+             if b.succs[k] is not None and lib.edge_establishes(b.term, k, TW, (">=", "=="), is_size)]
     for e in res:
-        t_ok = any(cfg.edge_dominates(f, b.id, 0, e) for b in tests)
-        a_ok = TW in (e["args"][0].get("t") or "")
+        t_ok = any(cfg.edge_dominates(f, b.id, k, e) for b, k in tests)
+        a_ok = bool(re.search(r"\b%s\b" % re.escape(TW), e["args"][0].get("t") or ""))
         ck.ob("C06-R3", "asyncWriteImpl/resolve-after-last-byte", t_ok and a_ok, e.loc, f, "dominated by totalWritten >= buffer.size(): %s; argument is totalWritten: %s" % (t_ok, a_ok))
     # re-queue carries the unwritten tail
     pf = [e for e in f.calls(lambda e: e.base_callee() == "std::deque::push_front")]
@@ -232,18 +249,47 @@ def run(ck):
     for e in pf:
         det = [d for d in f.events("decl") if strip_tmpl(d.get("icall") or "") == T + "BufferHolder::detach"]
         dcall = [c for c in f.calls(lambda c: c.get("callee") == T + "BufferHolder::detach")]
-        ok = bool(det) and bool(dcall) and (dcall[0]["args"][0].get("v") == TW) and det[0]["var"] in (e.get("t") or "") and cfg.ev_dominates(dom, det[0], e)
-        ck.ob("C06-R3", "asyncWriteImpl/requeue-carries-tail", ok, e.loc, f, "push_front(WriteEntry(move(deferred), %s = buffer.detach(totalWritten), flags))" % (det[0]["var"] if det else "?"))
+        inline = [c for c in dcall if c.block == e.block and c.idx < e.idx and (c.get("t") or "") in (e.get("t") or "")]
+        if det:
+            ok = bool(dcall) and (dcall[0]["args"][0].get("v") == TW) and bool(re.search(r"\b%s\b" % re.escape(det[0]["var"]), e.get("t") or "")) and cfg.ev_dominates(dom, det[0], e)
+        else:
+            ok = bool(inline) and inline[0]["args"][0].get("v") == TW
+        ck.ob("C06-R3", "asyncWriteImpl/requeue-carries-tail", ok, e.loc, f, "push_front(WriteEntry(move(deferred), %s = buffer.detach(totalWritten), flags))" % (det[0]["var"] if det else "buffer.detach(..)"))
     # progress accounting
     tw = twd
     adv = [a for a in f.events("assign") if (a["lhs"].get("v") == TW)]
     ok = len(tw) == 1 and strip_tmpl(tw[0].get("icall") or "") == T + "BufferHolder::offset" and len(adv) == 1 and adv[0].get("op") == "+=" and adv[0]["rhs"].get("v") == BW
-    ok = ok and all(cfg.ev_dominates(dom, adv[0], b.elems[-1]) for b in tests if b.elems)
+    ok = ok and all(cfg.ev_dominates(dom, adv[0], b.elems[-1]) for b, _k in tests if b.elems)
     ck.ob("C06-R3", "asyncWriteImpl/progress-accounting", ok, tw[0].loc if tw else f.loc, f,
           "totalWritten = buffer.offset(); totalWritten += bytesWritten before the completion test" if ok else "progress accounting shape not recognised")
-    # the pointer/offset handed to the writers is based on totalWritten
+    # the pointer/offset handed to the writers is based on totalWritten (directly, or through the parameter of a wrapping lambda
+    # every call of which passes totalWritten)
+    def based_on(fn_, w, name):
+        defs = {d["var"]: d for d in fn_.events("decl") if d.get("var")}
+        pat = re.compile(r"\b%s\b" % re.escape(name))
+        for a in w.get("args", []):
+            if pat.search(a.get("t") or ""):
+                return True
+            d = defs.get(a.get("v"))
+            if d is not None and pat.search(" ".join(d.get("refs") or []) + " " + ((d.get("init") or {}).get("t") or "")):
+                return True
+        return False
+    nw = 0
     for w in f.calls(lambda e: e.get("callee") in WRITE_OWNERS):
+        nw += 1
         args = " ".join(a.get("t") or "" for a in w.get("args", []))
-        defs = {d["var"]: d for d in f.events("decl")}
-        uses_tw = any(TW in " ".join(defs[a.get("v")].get("refs") or []) + ((defs[a.get("v")].get("init") or {}).get("t") or "") for a in w.get("args", []) if a.get("v") in defs)
-        ck.ob("C06-R3", "asyncWriteImpl/%s-starts-at-totalWritten" % w["callee"].replace(T, ""), uses_tw, w.loc, f, "arguments: %s" % args)
+        ck.ob("C06-R3", "asyncWriteImpl/%s-starts-at-totalWritten" % w["callee"].replace(T, ""), based_on(f, w, TW), w.loc, f, "arguments: %s" % args)
+    for lf in prog.lambdas_in(f):
+        lid = lf.id.split("#in:")[0]
+        for w in lf.calls(lambda e: e.get("callee") in WRITE_OWNERS):
+            nw += 1
+            args = " ".join(a.get("t") or "" for a in w.get("args", []))
+            ok = False
+            for i, p_ in enumerate(lf.params):
+                if based_on(lf, w, p_["name"]):
+                    sites = [c for c in f.calls(lambda c: (c.get("callee") or "").split("#in:")[0] == lid)]
+                    ok = bool(sites) and all(len(c.get("args", [])) > i and c["args"][i].get("v") == TW for c in sites)
+            # captured by reference: the lambda names totalWritten itself
+            ok = ok or based_on(lf, w, TW)
+            ck.ob("C06-R3", "asyncWriteImpl/%s-starts-at-totalWritten" % w["callee"].replace(T, ""), ok, w.loc, lf, "arguments: %s (inside a local lambda)" % args)
+    ck.require(nw >= 2, "writer calls of the drain routine: %d found" % nw)
